@@ -876,16 +876,19 @@ func (r *runningStep) executeSubWorkflows(input executeInput) ([]any, map[int]st
 		i := i
 		input := input
 		go func() {
+			slotAcquired := false
 			defer func() {
-				select {
-				case <-sem:
-				case <-r.ctx.Done(): // Must not deadlock if closed early.
+				// Only release a slot that this item holds. An item that was aborted while it was queued must not
+				// take the slot of an item that is still running, or more than `parallelism` items would run.
+				if slotAcquired {
+					<-sem
 				}
 				wg.Done()
 			}()
 			r.logger.Debugf("Queuing item %d...", i)
 			select {
 			case sem <- struct{}{}:
+				slotAcquired = true
 			case <-r.ctx.Done():
 				r.logger.Debugf("Aborting item %d execution.", i)
 				return
